@@ -530,9 +530,16 @@ def stat_models():
     m3 = pyhf.Model({'channels': [{'name': 'c', 'samples': [
         {'name': 'sig', 'data': [4.0], 'modifiers': [{'name': 'mu', 'type': 'normfactor', 'data': None}]},
         {'name': 'bkg', 'data': [6.5], 'modifiers': []}]}]}, poi_name='mu')
+    # Gaussian and Poisson constraints INTERLEAVED in the auxiliary layout (normsys: Gaussian, shapesys: Poisson, staterror: Gaussian)
+    m4 = pyhf.Model({'channels': [{'name': 'c', 'samples': [
+        {'name': 'sig', 'data': [4.0, 3.0], 'modifiers': [{'name': 'mu', 'type': 'normfactor', 'data': None},
+                                                           {'name': 'a_norm', 'type': 'normsys', 'data': {'hi': 1.1, 'lo': 0.9}}]},
+        {'name': 'bkg1', 'data': [40.0, 30.0], 'modifiers': [{'name': 'b_shape', 'type': 'shapesys', 'data': [4.0, 6.0]}]},
+        {'name': 'bkg2', 'data': [25.0, 35.0], 'modifiers': [{'name': 'c_stat', 'type': 'staterror', 'data': [2.0, 3.0]}]}]}]}, poi_name='mu')
     return [('uncorrelated_background-2bin', m1, [1.3, 1.1, 0.9]),
             ('normsys+histosys+staterror+lumi', m2, None),
-            ('one-bin-no-nuisance', m3, [1.5])]
+            ('one-bin-no-nuisance', m3, [1.5]),
+            ('normsys+shapesys+staterror (G,P,G aux layout)', m4, None)]
 
 
 def aux_reference(model, pars):
@@ -557,10 +564,13 @@ def sampling_checks(ctx, backend, nstat, seed, report):
     for mname, model, pars in stat_models():
         if pars is None:
             pars = list(model.config.suggested_init())
-            for nm, v in (('mu', 1.4), ('ns', 0.5), ('hs', -0.7), ('lumi', 1.01)):
-                pars[model.config.par_slice(nm).start] = v
-            s = model.config.par_slice('st')
-            pars[s.start], pars[s.start + 1] = 1.05, 0.93
+            for nm, v in (('mu', 1.4), ('ns', 0.5), ('hs', -0.7), ('lumi', 1.01), ('a_norm', 0.5)):
+                if nm in model.config.par_map:
+                    pars[model.config.par_slice(nm).start] = v
+            for nm, vals in (('st', (1.05, 0.93)), ('c_stat', (1.05, 0.93)), ('b_shape', (1.1, 0.9))):
+                if nm in model.config.par_map:
+                    s = model.config.par_slice(nm)
+                    pars[s.start], pars[s.start + 1] = vals
         tpars = tb.astensor(pars)
         nmain = model.config.nmaindata
         naux = len(model.config.auxdata)
